@@ -19,7 +19,7 @@ R10.6  TapTreeBuilder is the binary counter over completed heights that brace pa
 import itertools
 
 from .. import model, symx, textmodel as tm, nametab
-from ..interp import Machine, Adt, Term, PyVec, Panic, ok, err
+from ..interp import Machine, Adt, Term, PyVec, Panic, ok, err, dcopy
 from ..report import Unsupported
 
 LEVEL = "other"
@@ -944,6 +944,114 @@ def check_key_expressions(chk, F):
         B.TRAIT_TABLE[("std::iter::Iterator", "collect")] = saved_collect
 
 
+# ---- R10.8 wallet policies (BIP-388 templates) ---------------------------------------------------------------------------
+
+def check_wallet_policy(chk, F):
+    from .. import builtins as B
+    from . import c16
+    import re
+    R = "R10.8"
+    chk.rule(R, "wallet-policy text forms: a key placeholder @i/<M;N>/* (any M < N, also of different digit counts; /** for "
+                "<0;1>) and a whole template parse, print back as the canonical text, and that text parses to an equal value "
+                "and prints the same; a full descriptor turns into its template (keys replaced by @i placeholders in order of "
+                "first occurrence) and back into the same descriptor")
+    KX = "descriptor::wallet_policy::key_expression::KeyExpression"
+    WP = "descriptor::wallet_policy::WalletPolicy"
+    try:
+        kfs = [it["path"] for i in F.impls if i["trait"] == "std::str::FromStr" and i["self_adt"] == KX
+               for it in i["items"] if it["name"] == "from_str"][0]
+        wfs = [it["path"] for i in F.impls if i["trait"] == "std::str::FromStr" and i["self_adt"] == WP
+               for it in i["items"] if it["name"] == "from_str"][0]
+        into = [q for q in F.fns if q.endswith("WalletPolicy::into_descriptor")][0]
+    except IndexError:
+        chk.fail(R, "anchor", "KeyExpression / WalletPolicy FromStr or into_descriptor not found", kind="unanalysable")
+        return
+    chk.saw(kfs, wfs, into)
+    m, _params = desc_machine(F)
+    km = key_machine(F)
+    for k, v in km.hooks.items():
+        m.hooks.setdefault(k, v)
+    c16.derivation_hooks(m)
+    m.key_display = True
+    m.max_depth = 160
+    orig = B.fmt_value
+    B.fmt_value = _key_fmt_value(orig)
+
+    def show(v):
+        out, _ = tm.display(m, v)
+        return "".join(map(str, out))
+
+    def canon(t):
+        return t.replace("<0;1>/*", "**")
+    n = 0
+    try:
+        for idx in (0, 3, 12):
+            for a, b in ((0, 1), (0, 2), (2, 3), (9, 10), (2, 10), (2, 100), (99, 100), (10, 11), (5, 2147483647)):
+                t = "@%d/<%d;%d>/*" % (idx, a, b)
+                n += 1
+                try:
+                    r = m.call_path(kfs, [t])
+                    if r.variant != "Ok":
+                        chk.fail(R, "key|" + t, "the placeholder %s does not parse: %s" % (t, repr(r)[:160]),
+                                 where="src/descriptor/wallet_policy/key_expression.rs")
+                        continue
+                    p1 = show(r.fields["0"])
+                    r2 = m.call_path(kfs, [p1])
+                    good = p1 == canon(t) and r2.variant == "Ok" and pstrip(r2.fields["0"]) == pstrip(r.fields["0"]) and \
+                        show(r2.fields["0"]) == p1
+                    chk.obligation(R, good, "key|" + t, "%s prints as %s, which parses to %s" % (t, p1, repr(r2)[:120]),
+                                   where="src/descriptor/wallet_policy/key_expression.rs")
+                except (Unsupported, Panic) as e:
+                    chk.fail(R, "key|" + t, "%s on %s" % (e, t), kind="unanalysable" if isinstance(e, Unsupported) else "violation")
+        templates = ["wpkh(@0/**)", "pkh(@0/<2;3>/*)", "sh(wpkh(@0/**))", "wsh(multi(2,@0/**,@1/<2;3>/*))",
+                     "sh(wsh(sortedmulti(1,@0/<0;1>/*,@1/**)))", "tr(@0/**,{pk(@1/<9;10>/*),pk(@2/**)})",
+                     "wsh(multi(2,@0/**,@0/<2;3>/*))", "wsh(and_v(v:pk(@0/**),or_d(pk(@1/<99;100>/*),older(12))))",
+                     "tr(@0/<2;100>/*,multi_a(2,@1/**,@2/<10;11>/*))", "sh(multi(1,@0/**,@1/**))"]
+        for t in templates:
+            n += 1
+            try:
+                r = m.call_path(wfs, [t])
+                if r.variant != "Ok":
+                    chk.fail(R, "template|" + t, "the template does not parse: %s" % repr(r)[:160], where="src/descriptor/wallet_policy/mod.rs")
+                    continue
+                p1 = show(r.fields["0"])
+                r2 = m.call_path(wfs, [p1])
+                good = p1 == canon(t) and r2.variant == "Ok" and pstrip(r2.fields["0"]) == pstrip(r.fields["0"]) and show(r2.fields["0"]) == p1
+                chk.obligation(R, good, "template|" + t, "%s prints as %s, which parses to %s" % (t, p1, repr(r2)[:120]),
+                               where="src/descriptor/wallet_policy/mod.rs")
+            except (Unsupported, Panic) as e:
+                chk.fail(R, "template|" + t, "%s on %s" % (e, t), kind="unanalysable" if isinstance(e, Unsupported) else "violation")
+        XP = [XPUB, XPUB.replace("A1", "B7"), XPUB.replace("A1", "C9")]
+        descs = ["wpkh(K0/<0;1>/*)", "wsh(multi(2,K0/<0;1>/*,K1/<9;10>/*))", "tr(K0/<0;1>/*,{pk(K1/<2;100>/*),pk(K2/<0;1>/*)})",
+                 "sh(wsh(sortedmulti(1,K0/<99;100>/*,K1/<0;1>/*)))", "wsh(and_v(v:pk(K0/<0;1>/*),or_d(pk(K1/<3;4>/*),older(12))))"]
+        for d in descs:
+            n += 1
+            full = d
+            for i, x in enumerate(XP):
+                full = full.replace("K%d" % i, x)
+            want_t = canon(re.sub(r"K(\d)", lambda mo: "@" + mo.group(1), d))
+            try:
+                r = m.call_path(wfs, [full])
+                if r.variant != "Ok":
+                    chk.fail(R, "descriptor|" + d, "the descriptor is not turned into a wallet policy: %s" % repr(r)[:160],
+                             where="src/descriptor/wallet_policy/mod.rs")
+                    continue
+                p1 = show(r.fields["0"])
+                back = m.call_path(into, [dcopy(r.fields["0"])])
+                bt = None
+                if back.variant == "Ok":
+                    out, _ = tm.display(m, back.fields["0"], alternate=True)
+                    bt = "".join(map(str, out))
+                good = p1 == want_t and bt == full
+                chk.obligation(R, good, "descriptor|" + d, "template %s (expected %s); back to the descriptor: %s" % (
+                    p1, want_t, "the same" if bt == full else repr(bt)[:200]), where="src/descriptor/wallet_policy/mod.rs")
+            except (Unsupported, Panic) as e:
+                chk.fail(R, "descriptor|" + d, "%s on %s" % (e, d), kind="unanalysable" if isinstance(e, Unsupported) else "violation")
+    finally:
+        B.fmt_value = orig
+    chk.floor(R, "wallet-policy texts", n, 40)
+
+
 def run(chk):
     F = chk.facts()
     chk.explanation = __doc__
@@ -971,3 +1079,5 @@ def run(chk):
         chk.guard("R10.6", "taptree", check_taptree_builder, chk, F)
     if not ONLY or "7" in ONLY:
         chk.guard("R10.7", "keys", check_key_expressions, chk, F)
+    if not ONLY or "8" in ONLY:
+        chk.guard("R10.8", "wallet-policy", check_wallet_policy, chk, F)
